@@ -1,0 +1,158 @@
+//! Verification hook, compiled only with `--cfg affinitree_verif`.
+//!
+//! Records every LP call (`Polytope::solve_linprog`) and every call of the witness-repair
+//! heuristic (`AffTree::mirror_points`) of the current thread, and can override the answer
+//! of chosen LP calls according to a fault plan. Without the cfg flag this file is not
+//! part of the crate.
+
+use std::cell::RefCell;
+use std::collections::HashMap;
+
+use ndarray::{Array1, Array2};
+
+use super::affine::Polytope;
+use super::polyhedron::PolytopeStatus;
+
+#[derive(Clone, Debug)]
+pub enum Fault {
+    /// report a solver error
+    Error,
+    /// report an unbounded program
+    Unbounded,
+    /// report the real witness shifted by the given offset in every coordinate
+    /// (or the offset vector itself when the real answer has no witness)
+    Perturbed(f64),
+    /// report a point far away from everything
+    FarOff,
+}
+
+#[derive(Clone, Debug)]
+pub enum Event {
+    Lp {
+        poly: Polytope,
+        coeffs: Array1<f64>,
+        status: PolytopeStatus,
+        fault: Option<Fault>,
+    },
+    Mirror {
+        poly: Polytope,
+        points: Array2<f64>,
+        n_iterations: usize,
+        result: Option<(Array2<f64>, usize)>,
+    },
+}
+
+#[derive(Default)]
+struct State {
+    recording: bool,
+    in_lp: bool,
+    in_mirror: bool,
+    lp_calls: usize,
+    plan: HashMap<usize, Fault>,
+    log: Vec<Event>,
+}
+
+thread_local! {
+    static STATE: RefCell<State> = RefCell::new(State::default());
+}
+
+/// Starts recording with the given fault plan (LP call number -> fault), clearing the log.
+pub fn start(plan: HashMap<usize, Fault>) {
+    STATE.with(|s| {
+        let mut s = s.borrow_mut();
+        s.recording = true;
+        s.in_lp = false;
+        s.in_mirror = false;
+        s.lp_calls = 0;
+        s.plan = plan;
+        s.log.clear();
+    });
+}
+
+/// Stops recording and returns the log.
+pub fn stop() -> Vec<Event> {
+    STATE.with(|s| {
+        let mut s = s.borrow_mut();
+        s.recording = false;
+        s.in_lp = false;
+        s.in_mirror = false;
+        s.plan.clear();
+        std::mem::take(&mut s.log)
+    })
+}
+
+/// True when the LP call has to run the real solver (not recording, or re-entered from `around_lp`).
+pub fn lp_passthrough() -> bool {
+    STATE.with(|s| {
+        let s = s.borrow();
+        !s.recording || s.in_lp
+    })
+}
+
+pub fn around_lp<F>(poly: &Polytope, coeffs: &Array1<f64>, real: F) -> PolytopeStatus
+where
+    F: FnOnce(&Polytope, Array1<f64>) -> PolytopeStatus,
+{
+    let (call_no, fault) = STATE.with(|s| {
+        let mut s = s.borrow_mut();
+        let n = s.lp_calls;
+        s.lp_calls += 1;
+        s.in_lp = true;
+        (n, s.plan.get(&n).cloned())
+    });
+    let _ = call_no;
+    let genuine = real(poly, coeffs.clone());
+    let status = match &fault {
+        None => genuine,
+        Some(Fault::Error) => PolytopeStatus::Error("injected fault".to_string()),
+        Some(Fault::Unbounded) => PolytopeStatus::Unbounded,
+        Some(Fault::Perturbed(off)) => match genuine {
+            PolytopeStatus::Optimal(w) => PolytopeStatus::Optimal(w.mapv(|x| x + off)),
+            _ => PolytopeStatus::Optimal(Array1::from_elem(coeffs.len(), *off)),
+        },
+        Some(Fault::FarOff) => PolytopeStatus::Optimal(Array1::from_elem(coeffs.len(), 1048576.0)),
+    };
+    STATE.with(|s| {
+        let mut s = s.borrow_mut();
+        s.in_lp = false;
+        s.log.push(Event::Lp {
+            poly: poly.clone(),
+            coeffs: coeffs.clone(),
+            status: status.clone(),
+            fault,
+        });
+    });
+    status
+}
+
+/// True when `mirror_points` has to run its real body.
+pub fn mirror_passthrough() -> bool {
+    STATE.with(|s| {
+        let s = s.borrow();
+        !s.recording || s.in_mirror
+    })
+}
+
+pub fn around_mirror<F>(
+    poly: &Polytope,
+    points: &Array2<f64>,
+    n_iterations: usize,
+    real: F,
+) -> Option<(Array2<f64>, usize)>
+where
+    F: FnOnce(&Polytope, &Array2<f64>, usize) -> Option<(Array2<f64>, usize)>,
+{
+    STATE.with(|s| s.borrow_mut().in_mirror = true);
+    let result = real(poly, points, n_iterations);
+    STATE.with(|s| {
+        let mut s = s.borrow_mut();
+        s.in_mirror = false;
+        s.log.push(Event::Mirror {
+            poly: poly.clone(),
+            points: points.clone(),
+            n_iterations,
+            result: result.clone(),
+        });
+    });
+    result
+}
